@@ -22,6 +22,7 @@ SCENARIOS = {
     "AB": dict(sources=["A", "B"], deps=dict(A=["B"], B=[]), temps=["A"], failing=[], tla=("Src_AB", "Deps_AB", "Temp_AB", "Fail_None")),
     "ERR": dict(sources=["A", "B"], deps=dict(A=["B"], B=[]), temps=["A"], failing=["A"], tla=("Src_AB", "Deps_AB", "Temp_AB", "Fail_A")),
     "IND": dict(sources=["A", "B"], deps=dict(A=[], B=[]), temps=["A", "B"], failing=[], tla=("Src_AB", "Deps_IND", "Temp_IND", "Fail_None")),
+    "EMP": dict(sources=["A", "B"], deps=dict(A=["B"], B=[]), temps=["B"], failing=[], empty=["B"], tla=("Src_AB", "Deps_AB", "Temp_B", "Fail_None")),
     "ABC": dict(sources=["A", "B", "C"], deps=dict(A=["B"], B=["C"], C=[]), temps=["A", "C"], failing=[], tla=("Src_ABC", "Deps_ABC", "Temp_ABC", "Fail_None")),
 }
 
@@ -69,6 +70,9 @@ class Project:
         return ["out:" + s for s in self.scen["sources"]] + ["tmp:" + s for s in self.scen["temps"]]
 
     def source_text(self, s, v):
+        if s in self.scen.get("empty", []):
+            # nothing but a temp directive: the output of this source is the empty file
+            return "\n".join([f"// TXTPP#temp {self.lay['temp'][s]}", f"// body of {s} v{v}", "// ü second"]) + "\n"
         lines = [f"{s}-head v{v} é"]
         if s in self.scen["temps"]:
             lines += [f"// TXTPP#temp {self.lay['temp'][s]}", f"// body of {s} v{v}", "// ü second"]
@@ -179,8 +183,8 @@ def garbage(kind, fresh):
         g = f[:m] + b"Q" + f[m:]
     else:
         g = b"STALE text from an older run\n"
-    if g == f:
-        g = f + b"!"
+    if g == f or g == fresh:
+        g = fresh + b"!"
     return g
 
 
@@ -344,9 +348,10 @@ def tlc_fs(rep, prop, wd, scen):
     props = ("INVARIANTS BuildIdempotent BuildForgets CleanRestores NeededAfterBuildIdle\n"
              "PROPERTIES BuildHermetic BuildVerdict NeededEquivBuild NoRewriteWhenFresh VerifyExact CleanRemoves OnlyOwnPaths\n")
     cfg2 = os.path.join(wd, f"fse-{scen}.cfg")
-    open(cfg2, "w").write("SPECIFICATION EdgeSpec\n" + consts + "VIEW View\n" + props + "CHECK_DEADLOCK FALSE\n")
-    runs = [("MCFs.tla", cfg2, f"fse-{prop}-{scen}", 1, 7200, None, "-Xss512m -Xmx6g")]
-    if tier() == "thorough":
+    big = len(SCENARIOS[scen]["sources"]) > 2      # the full state space of a three-source project is out of reach: lighter family of states
+    open(cfg2, "w").write(f"SPECIFICATION {'EdgeSpecLite' if big else 'EdgeSpec'}\n" + consts + "VIEW View\n" + props + "CHECK_DEADLOCK FALSE\n")
+    runs = [("MCFs.tla", cfg2, f"fse-{prop}-{scen}", 1, 7200, None, "-Xss512m -Xmx8g")]
+    if tier() == "thorough" and not big:
         # all histories from the pristine tree (edits, tampering, deletions, crashed builds in between): reachability of every state
         cfg1 = os.path.join(wd, f"fs-{scen}.cfg")
         open(cfg1, "w").write("SPECIFICATION Spec\n" + consts + "VIEW View\n" + props + "CHECK_DEADLOCK FALSE\n")
@@ -388,6 +393,11 @@ def run_edges(rep, prop, wd, proj, ref, groups, rng, kinds_per_edge=1, via_cli_f
                 b, kind = mat.bytes_for(g, e0["from"][g], ver, o["tr"])
                 if e0["from"][g][0] == "built" and b is None:
                     skip = True  # no real bytes for this abstract status (output of a failing source)
+                if e0["from"][g][0] == "built" and b is not None:
+                    fresh_b = mat.fresh_now(g, ver, o["tr"])
+                    is_current = (e0["from"][g][1] == {x: ver[x] for x in e0["from"][g][1]}) and (e0["from"][g][2] == (o["tr"] if g.startswith("out") else True))
+                    if not is_current and fresh_b == b:
+                        skip = True  # two abstract statuses with the same bytes (e.g. an empty output): the state where it is fresh covers it
                 if b is not None:
                     files.append(file_entry("p/" + proj.gen_path(g), b))
                     kinds[g] = kind
@@ -467,7 +477,7 @@ def check(prop):
     rng = random.Random(seed())
     quick = tier() == "quick"
     acts = dict(C06=["verify"], C07=["clean"], C08=["build"], C09=["needed", "build", "verify"], C10=["build", "needed", "verify", "clean"])[prop]
-    plan = [("AB", "flat", False), ("AB", "nested", False), ("ERR", "flat", False), ("IND", "shapes", False)]
+    plan = [("AB", "flat", False), ("AB", "nested", False), ("ERR", "flat", False), ("IND", "shapes", False), ("EMP", "flat", False)]
     if not quick:
         plan += [("ABC", "nested", False), ("AB", "flat", True), ("ERR", "nested", False), ("AB", "shapes", False), ("ABC", "flat", False)]
     states = trans = 0
@@ -638,6 +648,8 @@ def pp_clean(rep, wd, rng, quick):
     states, cases = pp_engine.spec_run(rep, "C07", wd, maxlen, firsts)
     vcases, meta = [], []
     for ci, c in enumerate(cases):
+        if any(x in pp_engine.ENV_NAMES for x in c["clean"]["removed"]):
+            continue   # a temp directive aimed at one of the project's plain files: outside the domain (D8), nothing to restore
         for hist in (["build", "clean"], ["clean"], ["build", "clean", "clean"]):
             if hist != ["build", "clean"] and rng.random() > 0.2:
                 continue
